@@ -524,14 +524,20 @@ class Ctx:
 
     def verdict(self):
         self._check_cross()
-        seen_kf = set()
+        by_id = collections.OrderedDict()
         for kf, bn, bad, path in self.known_hits:
-            if (kf["id"], bn, bad) in seen_kf:
-                continue
-            seen_kf.add((kf["id"], bn, bad))
-            print("KNOWN-FINDING: property=%s %s [%s; bench=%s monitor=%s replay=%s]" % (
-                self.prop, kf["what"], kf["id"], bn, bad, path))
-        for bn, bad, t, path in self.violations:
+            e = by_id.setdefault(kf["id"], dict(kf=kf, sites=[], path=path))
+            if (bn, bad) not in e["sites"]:
+                e["sites"].append((bn, bad))
+        for fid, e in by_id.items():      # one line per listed finding
+            print("KNOWN-FINDING: property=%s %s [%s; seen at %s; replay=%s]" % (
+                self.prop, e["kf"]["what"], fid, ", ".join("%s/%s" % s_ for s_ in e["sites"][:6]) + (" ..." if len(e["sites"]) > 6 else ""),
+                e["path"]))
+        first = collections.OrderedDict()
+        for bn, bad, t, path in self.violations:    # one line per (bench, monitor): the shallowest frame
+            if (bn, bad) not in first or (0 <= t < first[(bn, bad)][0]):
+                first[(bn, bad)] = (t, path)
+        for (bn, bad), (t, path) in first.items():
             print("VIOLATION property=%s replay=%s  (bench=%s monitor=%s frame=%d)" % (self.prop, path, bn, bad, t))
         for m in self.inconclusive:
             print("INCONCLUSIVE: %s" % m)
